@@ -2968,6 +2968,53 @@ void Analyser::AnalyserImpl::analyseModel(const ModelPtr &model)
     //       proven to be computed using an NLA system, in which case the
     //       equation should now be considered as an algebraic equation and the
     //       variable it computes an algebraic variable.
+    //       Similarly, a variable on which the equation depends may have been
+    //       qualified as a computed constant while it is computed using an NLA
+    //       system (which can only be solved from computeRates() and
+    //       computeVariables()). Either way, requalifying an equation may in
+    //       turn require requalifying the equations that depend on it, whatever
+    //       the order in which they are listed, hence we loop until there is
+    //       nothing left to requalify.
+
+    auto isComputedUsingNlaSystem = [&](const AnalyserInternalVariablePtr &variable) {
+        return std::any_of(mInternalEquations.begin(), mInternalEquations.end(), [&](const auto &ie) {
+            return (ie->mType == AnalyserInternalEquation::Type::NLA)
+                   && (std::find(ie->mUnknownVariables.begin(), ie->mUnknownVariables.end(), variable) != ie->mUnknownVariables.end());
+        });
+    };
+    bool requalified;
+
+    do {
+        requalified = false;
+
+        for (const auto &internalEquation : mInternalEquations) {
+            if (internalEquation->mType != AnalyserInternalEquation::Type::VARIABLE_BASED_CONSTANT) {
+                continue;
+            }
+
+            auto unknownVariable = internalEquation->mUnknownVariables.front();
+
+            for (const auto &variable : internalEquation->mAllVariables) {
+                if ((variable != unknownVariable)
+                    && (((variable->mType != AnalyserInternalVariable::Type::CONSTANT)
+                         && (variable->mType != AnalyserInternalVariable::Type::COMPUTED_TRUE_CONSTANT)
+                         && (variable->mType != AnalyserInternalVariable::Type::COMPUTED_VARIABLE_BASED_CONSTANT))
+                        || isComputedUsingNlaSystem(variable))) {
+                    // We are supposed to compute a variable-based constant, yet
+                    // we have come across a variable which is not some kind of
+                    // a constant or which needs to be computed using an NLA
+                    // system. So, requalify the unknown variable and equation.
+
+                    unknownVariable->mType = AnalyserInternalVariable::Type::ALGEBRAIC;
+                    internalEquation->mType = AnalyserInternalEquation::Type::ALGEBRAIC;
+
+                    requalified = true;
+
+                    break;
+                }
+            }
+        }
+    } while (requalified);
 
     // Confirm that the variables in an NLA system are not overconstrained.
     // Note: this may happen if an NLA system contains too many NLA equations
@@ -2979,27 +3026,6 @@ void Analyser::AnalyserImpl::analyseModel(const ModelPtr &model)
 
     for (const auto &internalEquation : mInternalEquations) {
         switch (internalEquation->mType) {
-        case AnalyserInternalEquation::Type::VARIABLE_BASED_CONSTANT: {
-            auto unknownVariable = internalEquation->mUnknownVariables.front();
-
-            for (const auto &variable : internalEquation->mAllVariables) {
-                if ((variable != unknownVariable)
-                    && (variable->mType != AnalyserInternalVariable::Type::CONSTANT)
-                    && (variable->mType != AnalyserInternalVariable::Type::COMPUTED_TRUE_CONSTANT)
-                    && (variable->mType != AnalyserInternalVariable::Type::COMPUTED_VARIABLE_BASED_CONSTANT)) {
-                    // We are supposed to compute a variable-based constant, yet
-                    // we have come across a variable which is not some kind of
-                    // a constant. In fact, it was an algebraic variable (with
-                    // an initial guess) that needs to be computed using an NLA
-                    // system. So, requalify the unknown variable and equation.
-
-                    unknownVariable->mType = AnalyserInternalVariable::Type::ALGEBRAIC;
-                    internalEquation->mType = AnalyserInternalEquation::Type::ALGEBRAIC;
-
-                    break;
-                }
-            }
-        } break;
         case AnalyserInternalEquation::Type::NLA:
             if (internalEquation->mNlaSiblings.size() + 1 > internalEquation->mUnknownVariables.size()) {
                 // There are more NLA equations than unknown variables, so all
